@@ -32,6 +32,11 @@ func saveV(v, p int64) Stmt {
 	return st("save", "acct.storage.save(<-"+vname(v)+", to: /storage/p"+zlit(p)+")", xfer(psto(p), splace(pvar(v), false)))
 }
 
+// save an optional variable known to be full
+func saveV2(v, p int64) Stmt {
+	return st("save", "acct.storage.save(<-"+vname(v)+"!, to: /storage/p"+zlit(p)+")", xfer(psto(p), splace(pvar(v), true)))
+}
+
 func corpusHistories() map[string]*History {
 	out := map[string]*History{}
 
@@ -102,6 +107,55 @@ func corpusHistories() map[string]*History {
 		st("load", "var x3: @{C.I}? <- acct.storage.load<@{C.I}>(from: /storage/p0)", xfer(pvar(3), Src{Kind: SPlace, Pl: psto(0), Cast: rtyp(TI)})),
 		destroyV(3), mk(4, false, true, 9), saveV(4, 0),
 		st("useOpt", "log(r2?.tag)", Cmd{Op: CUse, R: 2, K: UOptTag})}}}}
+
+	// resources owned by the contract (a stored composite that is not a resource): force-assignment
+	// onto the occupied optional field must fail and roll back; swap / second-value / array and
+	// dictionary fields; accounting includes what the contract owns
+	con := Base{Sto: true, X: ContractPath}
+	out["contract_force_assign_occupied"] = &History{Txs: []*Tx{
+		{Stmts: []Stmt{mk(1, false, true, 1), mk(2, false, false, 2), appendTo(1, 2),
+			st("forceOpt", "C.forceOpt(<-x1)", xfer(pchild(con, Slot{Kind: SlOpt}), splace(pvar(1), false)))}},
+		{Stmts: []Stmt{mk(3, false, true, 3),
+			st("forceOpt", "C.forceOpt(<-x3)", xfer(pchild(con, Slot{Kind: SlOpt}), splace(pvar(3), false)))}},
+		{Stmts: []Stmt{mk(4, false, true, 4),
+			st("xchgOpt", "var x5: @{C.I}? <- C.xchgOpt(<-x4)", xfer(pvar(6), splace(pvar(4), false)),
+				xfer(pvar(5), splace(pchild(con, Slot{Kind: SlOpt}), false)), xfer(pchild(con, Slot{Kind: SlOpt}), splace(pvar(6), false))),
+			destroyV(5)}},
+		{Stmts: []Stmt{
+			st("takeOpt", "var x7: @{C.I}? <- C.swapOpt(nil)", xfer(pvar(7), splace(pchild(con, Slot{Kind: SlOpt}), false))),
+			destroyV(7)}}}}
+	out["contract_array_dict"] = &History{Txs: []*Tx{
+		{Stmts: []Stmt{mk(1, false, true, 1), mk(2, false, true, 2), mk(3, false, false, 3),
+			st("arrAppend", "C.arrAppend(<-x1)", xfer(pchild(con, Slot{Kind: SlArrEnd}), splace(pvar(1), false))),
+			st("arrInsert", "C.arrInsert(0, <-x2)", xfer(pchild(con, Slot{Kind: SlArr, I: 0}), splace(pvar(2), false))),
+			st("dictForce:contract", `C.dictForce("b", <-x3)`, xfer(pchild(con, Slot{Kind: SlDict, K: 1}), splace(pvar(3), false)))}},
+		{Stmts: []Stmt{mk(4, false, true, 4),
+			st("dictForce:contract", `C.dictForce("b", <-x4)`, xfer(pchild(con, Slot{Kind: SlDict, K: 1}), splace(pvar(4), false)))}},
+		{Stmts: []Stmt{
+			st("arrRemove", "var x5: @{C.I} <- C.arrRemove(1)", xfer(pvar(5), splace(pchild(con, Slot{Kind: SlArr, I: 1}), false))),
+			st("dictRemove", `var x6: @{C.I}? <- C.dictRemove("b")`, xfer(pvar(6), splace(pchild(con, Slot{Kind: SlDict, K: 1}), false))),
+			destroyV(5), saveV2(6, 1)}}}}
+
+	// known defect (both engines): force-assignment onto an occupied resource field of the
+	// TRANSACTION (a SimpleCompositeValue) is not checked: the old occupant silently disappears
+	out["txfield_force_assign_occupied"] = &History{KnownKey: "force-assign-occupied-transaction-field", KnownEngine: "*",
+		Txs: []*Tx{{Raw: `import C from 0x1
+transaction {
+  var f: @{C.I}?
+  prepare(acct: auth(Storage) &Account) {
+    self.f <- C.mkR(10)
+  }
+  execute {
+    self.f <-! C.mkR(11)
+    log(self.f?.tag)
+    destroy self.f
+  }
+}
+`, Stmts: []Stmt{
+			st("create", "", xfer(pvar(1), Src{Kind: SNew, Ev: true, Tag: 10})),
+			st("create", "", xfer(pvar(2), Src{Kind: SNew, Ev: true, Tag: 11})),
+			st("forceAssign", "", xfer(pvar(1), splace(pvar(2), false))),
+			destroyV(1)}}}}
 
 	// C04: references through optional field / dictionary value / cast, outer moved by swap,
 	// second-value transfer, save; nested reference must die with the outer resource
